@@ -20,6 +20,8 @@ Handle(ep, ev, declined) ==
       [] ev.t = "eof" -> IF ep.sock THEN ReadEOF(Clr(ep), TRUE) ELSE Clr(ep)
       [] ev.t = "attach" -> Attach(Clr(ep), "KEEP")
       [] ev.t = "tick" -> HeartbeatTick(Clr(ep), ev.now, ev.H, TRUE)
+      \* time advances by one unit of 1/S second; the heartbeat task wakes iff a wake-up is due then
+      [] ev.t = "adv" -> IF ev.wake THEN HeartbeatTickS(Clr(ep), ev.now, ev.H, ev.S, TRUE) ELSE Clr(ep)
       [] OTHER -> Clr(ep)
 
 \* ---- relative events (what TLC enumerates and the harness concretises against the real object) ----
